@@ -816,7 +816,7 @@ def classify(kind, cx, flags):
     keys.append(KEY_METRIC_ORDER)
   if kind == 'study' and not flags.get('endpointMerged', True) and cx.get('endpoint') is not None:
     keys.append(KEY_ENDPOINT_ORDER)
-  if kind == 'esdec' and any(e['pred'] is None for e in cx['decisions']):
+  if kind == 'esdec' and not flags.get('optPred', True) and any(e['pred'] is None for e in cx['decisions']):
     keys.append(KEY_NO_PREDICTION)
   if not flags['readNanos'] and has_frac_secs(cx):
     keys.append(KEY_NANOS)
@@ -910,6 +910,13 @@ def identify_flags(c):
   replay('endpointMerged', 'study', endpoint_witness, lambda w, b: ser(w.to_proto()) == ser(b.to_proto()), KEY_ENDPOINT_ORDER,
          lambda w, b, k, n: 'StudyConfig(pythia_endpoint=host:1) with metadata service/a, o/b: to_proto appends the endpoint entry after ALL metadata (%s), a second conversion writes it inside its namespace (%s): not the identical message' % (
              [(kv.ns, kv.key) for kv in w.to_proto().metadata], [(kv.ns, kv.key) for kv in b.to_proto().metadata]))
+  # c09_earlyStopDecisions_no_prediction_counterexample: one decision without a predicted final measurement
+  pol = V['policy']
+  replay('optPred', 'esdec',
+         lambda: [pol.EarlyStopDecisions(decisions=[pol.EarlyStopDecision(id=1, reason='r', should_stop=False)])],
+         lambda w, b: b.decisions[0].predicted_final_measurement is None, KEY_NO_PREDICTION,
+         lambda w, b, k, n: 'EarlyStopDecision(id=1, predicted_final_measurement=None) comes back with the prediction %r (an empty Measurement() is always sent and converted unconditionally)' % (
+             b.decisions[0].predicted_final_measurement,))
   c.flags.update(flags)
   return flags
 
@@ -948,6 +955,8 @@ class Batch:
       rec['req'] = {'op': kind, 'cfg': cfg, 'x': cx, 'back': rec['cb']}
       if kind == 'study':
         rec['req']['endpointMerged'] = bool(flags.get('endpointMerged', True))
+      if kind == 'esdec':
+        rec['req']['optPred'] = bool(flags.get('optPred', True))
 
   def evaluate(self):
     """Same values through the model (one driver run); tie + property per case."""
@@ -996,9 +1005,9 @@ class Batch:
         what.append('from_proto(to_proto(x)) differs from x: %s' % first_diff(m['norm'], m['norm_back']))
       if not idem_ok:
         what.append('to_proto(from_proto(to_proto(x))) is not identical to to_proto(x): %s' % first_diff(rec['cp'], rec['cp2']))
-      model_fails = m['norm_mback'] != m['norm'] or m['again'] != m['proto']
-      if cls and (tie_ok or not exact or model_fails):
-        key = cls[0]          # explained: the model of the identified variant predicts a failure on this input
+      if cls and (tie_ok or not exact):
+        key = cls[0]          # explained: the model of the identified variant predicts exactly this failure on this input
+                              # (a failure of a recorded class that the model does NOT reproduce is a different failure)
       elif cls:
         key = 'unexplained:' + kind
       else:
